@@ -12,8 +12,11 @@ import (
 	"net/netip"
 	"os"
 	"path/filepath"
+	"runtime"
 	"sort"
 	"strings"
+	"sync"
+	"sync/atomic"
 
 	"github.com/AdguardTeam/AdGuardDNS/internal/agd"
 	"github.com/AdguardTeam/AdGuardDNS/internal/profiledb"
@@ -637,7 +640,7 @@ func runSeq(r *vkit.Run, dir string, c seqCase) {
 				break
 			}
 			if st.lastFu {
-				s.restartCheck(cache, ans, step)
+				s.restartCheck(cache, ans, step, len(st.last.Profiles) == 0 || len(st.last.Devices) == 0)
 			}
 		}
 	}
@@ -679,7 +682,7 @@ func firstN(s []string, n int) []string {
 // synchronisation has just written, with a storage that fails, and compares
 // every lookup (and every exported field of the records) with the answers the
 // first database gave at write time.
-func (s *seqRun) restartCheck(cache string, first map[lkey]lookupResult, step int) {
+func (s *seqRun) restartCheck(cache string, first map[lkey]lookupResult, step int, emptyCache bool) {
 	fs := &failingStorage{}
 	db2, err := newDB(fs, cache, ivlNever)
 	if err != nil {
@@ -706,12 +709,27 @@ func (s *seqRun) restartCheck(cache string, first map[lkey]lookupResult, step in
 			continue
 		}
 		if !f.a.Found {
-			if (f.err == nil) != (err2 == nil) || (f.err != nil && f.a.Err != a2.Err && isProfileNotFound(f.err) != isProfileNotFound(err2)) {
-				s.r.Bucket("restart_notfound_kind_differs", 1)
+			if isProfileNotFound(f.err) != isProfileNotFound(err2) {
+				// Documented: a cache without profiles or without devices is
+				// not loaded at all, so "device not found" may become "profile
+				// not found".  Anything else is a difference of the answers.
+				if emptyCache {
+					s.r.Bucket("restart_notfound_kind_differs_empty_cache", 1)
+				} else {
+					s.r.Violation("restart:lookup:"+kindName[k.K]+":notfound-kind-differs",
+						fmt.Sprintf("lookup %s answered %q when the cache was written and %q after the restart", k, f.a.Err, a2.Err),
+						s.witness(map[string]any{"key": k.String(), "step": step}))
+				}
 			}
 			continue
 		}
 		s.r.Bucket("restart_found_compared", 1)
+		if f.a.short() != a2.short() {
+			s.r.Violation("restart:lookup:"+kindName[k.K]+":different-record",
+				fmt.Sprintf("lookup %s answered %s when the cache was written and %s after the restart", k, f.a.short(), a2.short()),
+				s.witness(map[string]any{"key": k.String(), "step": step, "before": f.a, "after": a2}))
+			continue
+		}
 		compareRecords(s.r, "restart:field:", s.witness(map[string]any{"key": k.String(), "step": step}), f.p, f.d, p2, d2, false)
 	}
 }
@@ -722,14 +740,15 @@ func isProfileNotFound(err error) bool {
 
 // ---- directed scenarios: the four index kinds x both orders -----------------
 
-func directedCases() (cs []seqCase) {
+type directedScript struct {
+	name  string
+	steps []seqStep
+}
+
+func directedScripts() []directedScript {
 	x, y := poolLinked[0], poolLinked[1]
 	dx, dy := poolDed[0], poolDed[1]
-	type sc struct {
-		name  string
-		steps []seqStep
-	}
-	scs := []sc{
+	return []directedScript{
 		{"linked-ip-handover", []seqStep{
 			{Ops: func(w *world) {
 				w.addProfile("p0", false)
@@ -831,8 +850,11 @@ func directedCases() (cs []seqCase) {
 			{Ops: func(w *world) { w.touchP("p0") }},
 		}},
 	}
+}
+
+func directedCases() (cs []seqCase) {
 	idx := 100000
-	for _, s := range scs {
+	for _, s := range directedScripts() {
 		for _, mode := range []string{"before", "after"} {
 			for _, future := range []bool{false, true} {
 				if future && s.name != "restart-then-incremental" {
@@ -851,7 +873,7 @@ func sequential(r *vkit.Run, dir string) {
 		runSeq(r, dir, c)
 		r.Bucket("directed_cases", 1)
 	}
-	n := r.N(220, 2500)
+	n := r.N(260, 2500)
 	for i := 0; i < n; i++ {
 		allFull := i%8 == 7
 		future := i%3 == 1
@@ -861,6 +883,109 @@ func sequential(r *vkit.Run, dir string) {
 				continue
 			}
 			runSeq(r, dir, seqCase{Name: "random", Idx: i, Mode: mode, AllFul: allFull, Future: future})
+		}
+	}
+}
+
+// naturalOrder is the hook-free way to obtain the "synchronisation first"
+// order: with GOMAXPROCS(1) a clean-up goroutine spawned by a lookup does not
+// run before the spawning goroutine yields, so lookups immediately followed
+// by a synchronisation let the synchronisation overtake the clean-ups.  The
+// hooks do not block here, they only record when each clean-up started.
+func naturalOrder(r *vkit.Run) {
+	old := runtime.GOMAXPROCS(1)
+	defer runtime.GOMAXPROCS(old)
+	reps := r.N(4, 40)
+	for si, sc := range directedScripts() {
+		for rep := 0; rep < reps; rep++ {
+			if sc.name == "restart-then-incremental" {
+				continue
+			}
+			var clock atomic.Int64
+			var mu sync.Mutex
+			type hit struct {
+				point string
+				at    int64
+			}
+			var hits []hit
+			hc := newHookCtl()
+			verifhook.Set(func(point string) {
+				at := clock.Add(1)
+				mu.Lock()
+				hits = append(hits, hit{point, at})
+				mu.Unlock()
+			})
+			q := &quiesce{h: hc, baseline: stableGoroutines()}
+			w := newWorld(basePast, false, seqPools)
+			st := &scriptedStorage{w: w, rng: r.Rand("natural-order", si*1000+rep)}
+			db, err := newDB(st, "none", ivlNever)
+			if err != nil {
+				r.Inconclusive("profiledb.New: " + err.Error())
+				verifhook.Set(nil)
+				return
+			}
+			m := newModel()
+			var events []string
+			violated := false
+			for step := 0; step < len(sc.steps) && !violated; step++ {
+				sc.steps[step].Ops(w)
+				lookupsDone := clock.Add(1)
+				if err = db.Refresh(context.Background()); err != nil {
+					r.Violation("refresh:error", "synchronisation failed: "+err.Error(), map[string]any{"case": sc.name})
+					break
+				}
+				syncDone := clock.Add(1)
+				m.apply(st.last, st.lastFu)
+				events = append(events, fmt.Sprintf("step %d SYNC %s", step, describeResp(st.last, st.lastFu)))
+				if !q.settle() {
+					r.Bucket("quiesce_timeouts", 1)
+					break
+				}
+				after := map[string]bool{}
+				mu.Lock()
+				for _, h := range hits {
+					switch {
+					case h.at > syncDone:
+						after[h.point] = true
+						r.Bucket("natural_order:"+h.point+":ran_after_next_sync", 1)
+					case h.at > lookupsDone:
+						r.Bucket("natural_order:"+h.point+":ran_during_next_sync", 1)
+					default:
+						r.Bucket("natural_order:"+h.point+":ran_before_next_sync", 1)
+					}
+				}
+				hits = hits[:0]
+				mu.Unlock()
+				// all lookups without yielding in between
+				for _, k := range seqUniverse() {
+					p, d, e := doLookup(db, k)
+					a := normalise(p, d, e)
+					exp := m.expect(k)
+					cls := judge(k, exp, a)
+					r.Bucket("natural_order_lookups", 1)
+					if cls == "" || cls == "answer-from-other-profile" {
+						continue
+					}
+					violated = true
+					key := "natural-order:" + kindName[k.K] + ":" + cls
+					what := fmt.Sprintf("GOMAXPROCS(1), no blocking hooks: step %d lookup %s answered %s, the latest synchronised data say %s", step, k, a.short(), exp.short())
+					if cls == "missing" {
+						switch {
+						case after[ownPoint[k.K]]:
+							key = "cleanup-deletes-new-owner:" + kindName[k.K]
+							what += "; the clean-up of this index, spawned before the synchronisation, started after it. " + fixHint
+						case after[ownPoint[kDev]]:
+							key = "cleanup-deletes-new-owner:device-id"
+							what += "; a removeDevice clean-up spawned before the synchronisation started after it. " + fixHint
+						}
+					}
+					r.Violation(key, what, map[string]any{"case": "natural-order/" + sc.name, "rep": rep, "history": events, "key": k.String(), "observed": a, "expected": exp.short()})
+				}
+			}
+			verifhook.Set(nil)
+			q.settle()
+			r.Bucket("natural_order_cases", 1)
+			r.Eval("natural-order/"+sc.name, false)
 		}
 	}
 }
